@@ -75,6 +75,8 @@ _RUNTIME_PROPS = ["C01", "C02", "C03", "C04", "C05", "C06", "C07", "C08", "C09",
 
 
 def glue_props(file, fn):
+    if file in ("Cargo.toml", "Cargo.lock"):
+        return ["C%02d" % i for i in range(1, 21)]
     if file == "src/fn_graph.rs":
         if _re.match(r'FnGraph::(iter|iter_rev|iter_insertion\w*|map|fold|try_fold|for_each|try_for_each|toposort)(#\d+)?$', fn):
             return ["C14"]
